@@ -138,9 +138,13 @@ class ElabPass:
             for bundle in module.bundles.values():
                 self.elaborate_bundle_instance(bundle)
 
-            # Run the pass-specific `elaborate_module`
+            # Run the pass-specific `elaborate_module`.
+            # Between passes the module refuses edits; the pass itself may make them.
+            module._frozen = False
             result = self.elaborate_module(module)
         except BaseException as e:
+            # A failed module is never elaborated or exported again, and needs no guarding.
+            module._frozen = False
             # No longer pending, and never to be elaborated (or exported) again.
             # That includes interruptions (`KeyboardInterrupt` and the like), for which
             # later attempts get an error saying so rather than the interruption itself.
@@ -158,6 +162,8 @@ class ElabPass:
         self.stack.pop()
         self.CLASS_LEVEL_CACHE.pending.remove(module)
         self.CLASS_LEVEL_CACHE.done.add(module)
+        # This pass' checks are skipped from here on: no more edits by the designer.
+        module._frozen = True
         return result
 
     def elaborate_module(self, module: Module) -> Module:
